@@ -422,7 +422,7 @@ func (p *policy) allocatePool(container cache.Container, poolHint string) (Grant
 		} else {
 			log.Info("updating memory allocation for %s to %s", g.GetContainer().PrettyName(), z)
 			g.SetMemoryZone(z)
-			if opt.PinMemory {
+			if opt.PinMemory && g.MemoryType() != memoryPreserve {
 				g.GetContainer().SetCpusetMems(z.MemsetString())
 			}
 		}
